@@ -401,31 +401,8 @@ impl SwiftField for Field11 {
         // Parse message type (3!n)
         let message_type = parse_swift_digits(&input[..3], "Field 11 message type")?;
 
-        // Parse date (6!n for YYMMDD)
-        let date_str = parse_swift_digits(&input[3..9], "Field 11 date")?;
-
-        // Parse date
-        let year = 2000
-            + date_str[0..2]
-                .parse::<i32>()
-                .map_err(|_| ParseError::InvalidFormat {
-                    message: "Invalid year in Field 11".to_string(),
-                })?;
-        let month = date_str[2..4]
-            .parse::<u32>()
-            .map_err(|_| ParseError::InvalidFormat {
-                message: "Invalid month in Field 11".to_string(),
-            })?;
-        let day = date_str[4..6]
-            .parse::<u32>()
-            .map_err(|_| ParseError::InvalidFormat {
-                message: "Invalid day in Field 11".to_string(),
-            })?;
-
-        let date =
-            NaiveDate::from_ymd_opt(year, month, day).ok_or_else(|| ParseError::InvalidFormat {
-                message: format!("Invalid date in Field 11: {}", date_str),
-            })?;
+        // Parse date (6!n for YYMMDD) with the century window shared by all date fields
+        let date = parse_date_yymmdd(&input[3..9])?;
 
         Ok(Field11 { message_type, date })
     }
